@@ -16,7 +16,7 @@ use std::io::Write;
 
 pub const TYPES: &[&str] = &[
     "time", "aead", "vcommit", "write", "account", "file", "device", "record", "cproof", "cstate",
-    "comparison",
+    "comparison", "vaultmeta", "secretmeta", "secret",
 ];
 
 fn gen_time(r: &mut Rng) -> UtcDateTime {
@@ -125,6 +125,72 @@ fn gen_comparison(r: &mut Rng) -> Comparison {
     }
 }
 
+// ---- vault crate types (not modelled in Coq: explored through the round-trip oracle only)
+fn gen_secret_meta(r: &mut Rng) -> sos_vault::secret::SecretMeta {
+    use sos_vault::secret::{SecretMeta, SecretType};
+    let kinds = [SecretType::Note, SecretType::Account, SecretType::List, SecretType::Card, SecretType::File];
+    let mut m = SecretMeta::new(gen_string(r), *r.pick(&kinds));
+    // at most one tag: a HashSet of several is written in iteration order (same value, other bytes)
+    match r.below(5) {
+        0 => {}
+        1 => m.set_tags(["work".to_string()].into_iter().collect()),
+        2 => m.set_tags([String::new()].into_iter().collect()),
+        3 => m.set_tags(["  ".to_string()].into_iter().collect()),
+        _ => m.set_tags([gen_string(r)].into_iter().collect()),
+    }
+    m.set_favorite(r.below(2) == 0);
+    m.set_date_created(gen_time(r));
+    m.set_last_updated(gen_time(r));
+    if r.below(3) == 0 {
+        m.set_urn(Some("urn:sos:verif:1".parse().unwrap()));
+    }
+    m
+}
+fn meta_same(a: &sos_vault::secret::SecretMeta, b: &sos_vault::secret::SecretMeta) -> bool {
+    a.label() == b.label()
+        && a.kind() == b.kind()
+        && a.tags() == b.tags()
+        && a.favorite() == b.favorite()
+        && a.flags().bits() == b.flags().bits()
+        && a.urn() == b.urn()
+        && a.owner_id() == b.owner_id()
+        && a.date_created() == b.date_created()
+        && a.last_updated() == b.last_updated()
+}
+fn gen_secret(r: &mut Rng) -> sos_vault::secret::Secret {
+    use sos_test_utils::mock;
+    let a = gen_string(r);
+    let b = gen_string(r);
+    let (_, s) = match r.below(14) {
+        0 => mock::note("l", &a),
+        1 => mock::login("l", &a, b.clone().into()),
+        2 => {
+            let mut h = std::collections::HashMap::new();
+            h.insert(a.as_str(), b.as_str());
+            mock::list("l", h)
+        }
+        3 => mock::card("l", &a, &b),
+        4 => mock::bank("l", &a, &b),
+        5 => mock::link("l", "https://example.com/x"),
+        6 => mock::password("l", a.clone().into()),
+        7 => mock::page("l", &a, &b),
+        8 => mock::contact("l", "Jane Doe"),
+        9 => mock::totp("l"),
+        10 => mock::pem("l"),
+        11 => mock::identity("l", sos_vault::secret::IdentityKind::IdCard, "12345"),
+        12 => mock::age("l"),
+        _ => mock::internal_file("l", "name.txt", "text/plain", b.as_bytes()),
+    };
+    let mut s = s;
+    if r.below(2) == 0 {
+        s.user_data_mut().set_comment(Some(gen_string(r)));
+    }
+    if r.below(3) == 0 {
+        s.user_data_mut().set_recovery_note(Some(gen_string(r)));
+    }
+    s
+}
+
 macro_rules! roundtrip {
     ($rt:expr, $v:expr, $t:ty) => {{
         let v = $v;
@@ -158,6 +224,30 @@ pub fn gen(spec: &str, out: &mut impl Write) {
                 roundtrip!(rt, CommitState(CommitHash(r.bytes(32).try_into().unwrap()), p), CommitState)
             }
             "comparison" => roundtrip!(rt, gen_comparison(&mut r), Comparison),
+            "vaultmeta" => {
+                // the creation date is taken from the clock when the value is made: two different clock
+                // readings for the original and for the value the decoder starts from
+                #[cfg(sos_verif)]
+                sos_core::verif_hooks::set_clock(1_600_000_000_000_000_000 + (r.below(1 << 40) as i64), 1);
+                let mut v = sos_vault::VaultMeta::default();
+                v.set_description(gen_string(&mut r));
+                let bytes = rt.block_on(encode(&v)).expect("encode");
+                #[cfg(sos_verif)]
+                sos_core::verif_hooks::set_clock(1_700_000_000_000_000_000, 1);
+                let back: Result<sos_vault::VaultMeta, _> = rt.block_on(decode::<sos_vault::VaultMeta>(&bytes));
+                #[cfg(sos_verif)]
+                sos_core::verif_hooks::set_clock(0, 1);
+                let same = match back { Ok(b) => b.date_created() == v.date_created() && b.description() == v.description(), Err(_) => false };
+                (bytes, same)
+            }
+            "secretmeta" => {
+                let v = gen_secret_meta(&mut r);
+                let bytes = rt.block_on(encode(&v)).expect("encode");
+                let back: Result<sos_vault::secret::SecretMeta, _> = rt.block_on(decode::<sos_vault::secret::SecretMeta>(&bytes));
+                let same = match back { Ok(b) => meta_same(&b, &v), Err(_) => false };
+                (bytes, same)
+            }
+            "secret" => roundtrip!(rt, gen_secret(&mut r), sos_vault::secret::Secret),
             _ => unreachable!(),
         };
         writeln!(out, "T={} B={} rt={}", ty, hex::encode(&bytes), same as u8).unwrap();
@@ -189,6 +279,9 @@ pub fn decode_one(rt: &tokio::runtime::Runtime, ty: &str, bytes: &[u8]) -> Strin
         "cproof" => redecode!(rt, bytes, CommitProof),
         "cstate" => redecode!(rt, bytes, CommitState),
         "comparison" => redecode!(rt, bytes, Comparison),
+        "vaultmeta" => redecode!(rt, bytes, sos_vault::VaultMeta),
+        "secretmeta" => redecode!(rt, bytes, sos_vault::secret::SecretMeta),
+        "secret" => redecode!(rt, bytes, sos_vault::secret::Secret),
         _ => "unknown-type".to_string(),
     }
 }
